@@ -14,10 +14,11 @@ const zzvLog2Page = 12
 const zzvPage = uint64(1) << zzvLog2Page
 
 type zzvBuf struct {
-	pid    vm.PID
-	vaddr  uint64
-	npages int
-	live   bool
+	pid       vm.PID
+	vaddr     uint64
+	npages    int
+	live      bool
+	onUnified bool // remapped onto the unified device: pages lie on one of its GPUs and record the unified device's id
 }
 
 type zzvAllocEnv struct {
@@ -169,7 +170,16 @@ func (e *zzvAllocEnv) freeBuf(b *zzvBuf) {
 }
 
 func (e *zzvAllocEnv) remap(b *zzvBuf, dev int) {
-	if e.freeCount(dev) < b.npages {
+	uni := dev == len(e.devs)-1
+	if uni {
+		// the unified device takes the pages from one of its GPUs (round robin):
+		// within capacity only if every GPU could serve the request
+		for g := 2; g < len(e.devs)-1; g++ {
+			if e.freeCount(g) < b.npages {
+				return
+			}
+		}
+	} else if e.freeCount(dev) < b.npages {
 		return
 	}
 	var old []uint64
@@ -180,6 +190,7 @@ func (e *zzvAllocEnv) remap(b *zzvBuf, dev int) {
 	}
 	e.a.Remap(b.pid, b.vaddr, uint64(b.npages)*zzvPage, dev)
 	e.remapUsed = true
+	b.onUnified = uni
 	for i := 0; i < b.npages; i++ {
 		pg, ok := e.pt.Find(b.pid, b.vaddr+uint64(i)*zzvPage)
 		verif.Assert(ok, "a remapped page disappeared from the page table"+e.tag())
@@ -187,7 +198,11 @@ func (e *zzvAllocEnv) remap(b *zzvBuf, dev int) {
 			continue
 		}
 		d := e.devOfPAddr(pg.PAddr)
-		verif.Assert(d == dev, "a remapped page does not lie in the memory of the target device"+e.tag())
+		if uni {
+			verif.Assert(d >= 2 && d < len(e.devs)-1, "a page remapped onto the unified device does not lie in the memory of one of its GPUs"+e.tag())
+		} else {
+			verif.Assert(d == dev, "a remapped page does not lie in the memory of the target device"+e.tag())
+		}
 		verif.Assert(int(pg.DeviceID) == dev, "a remapped page records the wrong device"+e.tag())
 		if d > 0 {
 			verif.Assert(e.free[d][pg.PAddr], "remap handed out a physical page that was not free"+e.tag())
@@ -217,7 +232,8 @@ func (e *zzvAllocEnv) invariants() {
 			verif.Assert(!seen[pg.PAddr], "two live virtual pages map to the same physical page"+e.tag())
 			seen[pg.PAddr] = true
 			d := e.devOfPAddr(pg.PAddr)
-			verif.Assert(d > 0 && int(pg.DeviceID) == d, "a live page lies outside the memory of the device recorded for it"+e.tag())
+			recOK := int(pg.DeviceID) == d || (b.onUnified && int(pg.DeviceID) == len(e.devs)-1 && d >= 2)
+			verif.Assert(d > 0 && recOK, "a live page lies outside the memory of the device recorded for it"+e.tag())
 			if d > 0 {
 				verif.Assert(!e.free[d][pg.PAddr], "a physical page is both mapped and free"+e.tag())
 			}
@@ -283,7 +299,11 @@ func (e *zzvAllocEnv) step(withRemap, withUnified bool, nGPU int) {
 	case 1: // Free
 		e.freeBuf(live[verif.Choice(len(live))])
 	case 2: // Remap
-		e.remap(live[verif.Choice(len(live))], 2+verif.Choice(nGPU))
+		nt := nGPU
+		if withUnified {
+			nt++ // the unified device is a valid Remap / Distribute target as well
+		}
+		e.remap(live[verif.Choice(len(live))], 2+verif.Choice(nt))
 	case 3: // AllocateUnified (implemented as an allocation on device 1)
 		pid := vm.PID(1 + verif.Choice(2))
 		size, n := pickSize()
